@@ -160,6 +160,30 @@ var srcGenerated = []srcGen{
 	{"@long-string-format-100000", func() string { return "(length (format nil \"~a\" \"" + strings.Repeat("a", 100000) + "\"))" }},
 }
 
+// oddNames: names made of a package prefix (known, nickname, unknown, empty), one
+// to three package markers and a tail (empty, an unknown name, a function's name,
+// another marker, a digit), in every position a user can type a half-finished
+// qualified name: evaluated, called, assigned, bound, quoted, as a designator.
+// Definers only with prefixes that cannot change a built-in package.
+func oddNames() (out []string) {
+	for _, pre := range []string{"cl", "common-lisp", "cl-user", "bag", "gi", "keyword", "nosuchpkg", ""} {
+		for _, mark := range []string{":", "::", ":::"} {
+			for _, tail := range []string{"", "x", "car", ":", "1"} {
+				n := pre + mark + tail
+				if n == ":x" || n == ":car" || n == ":1" { // plain keywords
+					continue
+				}
+				out = append(out, n, "("+n+")", "("+n+" 1)", "(setq "+n+" 3)", "(funcall '"+n+")", "(list 1 "+n+")", "'"+n, "#'"+n,
+					"(boundp '"+n+")", "(fboundp '"+n+")", "(let (("+n+" 1)) "+n+")", "(symbol-name '"+n+")", "(funcall (lambda (&optional ("+n+" 2)) 1))")
+				if pre == "cl-user" || pre == "nosuchpkg" || pre == "" {
+					out = append(out, "(defun "+n+" () 1)", "(defvar "+n+" 1)", "(defconstant "+n+" 1)", "(defmacro "+n+" () 1)")
+				}
+			}
+		}
+	}
+	return
+}
+
 var srcCache []string
 
 // srcTexts: every literal text and every generated name, each once for plain
@@ -167,6 +191,9 @@ var srcCache []string
 func srcTexts() []string {
 	if srcCache == nil {
 		for _, t := range srcLiteral {
+			srcCache = append(srcCache, t, "C:"+t)
+		}
+		for _, t := range oddNames() {
 			srcCache = append(srcCache, t, "C:"+t)
 		}
 		for _, g := range srcGenerated {
